@@ -43,7 +43,7 @@ def match(exp, obs):
 HUGE, SHUGE = 1000000, 500000
 HKEYS = ("pos", "off", "n", "len", "nblk", "esz", "hl", "cap")
 # allocations beyond 1 GB fail in the drivers (safety net: a wrongly accepted huge request must not eat the machine)
-DRV_ENV = {"ASAN_OPTIONS": vlib.ASAN_ENV + ":max_allocation_size_mb=1024"}
+DRV_ENV = {"ASAN_OPTIONS": vlib.ASAN_ENV + ":max_allocation_size_mb=1024:symbolize=0"}
 
 
 def symbolic(v):
@@ -537,8 +537,19 @@ def validate_traces(ck, hist, events, module="Trace_CowArray", cfg=None, sigfn=N
     """TLC validates the recorded events.  An event rejected with the signature of an open known finding cuts its
     behaviour there (the real state has diverged); once TLC has confirmed a finding, other behaviours are cut at their
     first call of the same class, and validation is repeated on the rest."""
-    total_gen, cuts, confirmed = 0, 0, set()
-    for _ in range(12):
+    total_gen, cuts = 0, 0
+    # open findings that the replay binding reproduced in this run are confirmed: cut at their first call right away
+    confirmed = set(ck.known_hit.keys())
+    if confirmed:
+        drop = {}
+        for k, e in enumerate(events):
+            if e["b"] in drop or "obs" not in e:
+                continue
+            if (sigfn or event_sig)(hist, events, k)[0] in confirmed:
+                drop[e["b"]] = e["i"]
+        cuts += len(drop)
+        events = [e for e in events if e["b"] not in drop or e["i"] < drop[e["b"]]]
+    for _ in range(30):
         ok, matched, tres = vlib.validate_trace(module, events, cfg=cfg, tag=tag or module, xss="1g")
         total_gen += tres.generated
         if ok:
@@ -566,7 +577,7 @@ def validate_traces(ck, hist, events, module="Trace_CowArray", cfg=None, sigfn=N
                 drop[e["b"]] = e["i"]
         cuts += len(drop)
         events = [e for e in events if e["b"] not in drop or e["i"] < drop[e["b"]]]
-    raise vlib.MachineryError("trace validation did not settle after 12 rounds")
+    raise vlib.MachineryError("trace validation did not settle after 30 rounds")
 
 
 def trace_class(st, prev):
